@@ -89,7 +89,7 @@ def candidates(case):
                              ('critical', False), ('sd_timeout', 1.0),
                              ('build', 'ctor'), ('late_attrs', None),
                              ('watch', None), ('label', 'x'),
-                             ('ctor_attrs', None)):
+                             ('ctor_attrs', None), ('crit_method', None)):
             if sched.get(key) != neutral:
                 new = variant()
                 _at(new['spec'], path)[key] = neutral
@@ -108,6 +108,7 @@ def candidates(case):
                                  ('cleanup_outcome', None),
                                  ('exc_noargs', None), ('exc_base', None),
                                  ('exc_type', None), ('label', 'x'),
+                                 ('crit_method', None),
                                  ('handler_absorbs', None),
                                  ('forever', False), ('critical', False),
                                  ('outcome', 'ret'), ('cls', 'abstract')):
